@@ -90,7 +90,7 @@ func c18RunHistory(t *testing.T, role DTLSRole, hist []string) (*c18Obs, *vsched
 		vsched.SetBranching(false)
 		x := vfNewX(t, role)
 		o.x = x
-		x.OnDataChannel(func(rd *DataChannel) { o.add(rd, false, true) })
+		x.OnDataChannel(func(rd *DataChannel) { vsched.Yield("user-handler"); o.add(rd, false, true) })
 		connected := false
 		nremote := 0
 		for i, op := range hist {
@@ -188,7 +188,7 @@ func c18Body(t *testing.T, sc c18Scenario) (func(), *c18Obs) {
 		vsched.SetBranching(false)
 		x := vfNewX(t, o.role)
 		o.x = x
-		x.OnDataChannel(func(rd *DataChannel) { o.add(rd, false, true) })
+		x.OnDataChannel(func(rd *DataChannel) { vsched.Yield("user-handler"); o.add(rd, false, true) })
 		for i, id := range sc.PreIDs {
 			id := id
 			neg := true
